@@ -105,6 +105,8 @@ type RPCSpec struct {
 	Creds         map[string]string `json:"creds,omitempty"`
 	Creds2        map[string]string `json:"creds2,omitempty"` // a second PerRPCCredentials option
 	NoOutgoingMD  bool              `json:"no_out_md,omitempty"`
+	// FailCreds: "error" or "tls" - per-RPC credentials that make the RPC fail at its start.
+	FailCreds string `json:"fail_creds,omitempty"`
 	// NeverCancel: the RPC is issued with a context that can never be cancelled
 	// (context.Background() plus values: Done() == nil), as plain client code often does.
 	NeverCancel bool `json:"never_cancel,omitempty"`
@@ -668,6 +670,20 @@ func (c staticCreds) GetRequestMetadata(ctx context.Context, uri ...string) (map
 }
 func (c staticCreds) RequireTransportSecurity() bool { return false }
 
+// failingCreds are per-RPC credentials that cannot be used: GetRequestMetadata
+// fails ("error") or they insist on transport security ("tls"), which a tunnel
+// does not claim to offer. The RPC must fail at its start - after the library
+// has already taken a stream id for it.
+type failingCreds string
+
+func (c failingCreds) GetRequestMetadata(ctx context.Context, uri ...string) (map[string]string, error) {
+	if c == "error" {
+		return nil, errors.New("credentials unavailable (scripted)")
+	}
+	return map[string]string{"authorization": "never-sent"}, nil
+}
+func (c failingCreds) RequireTransportSecurity() bool { return c == "tls" }
+
 func methodPath(m string) string { return "/" + svcName + "/" + m }
 
 func (spec *RPCSpec) path() string {
@@ -749,6 +765,9 @@ func (spec *RPCSpec) callOpts() []grpc.CallOption {
 	}
 	if spec.Creds2 != nil {
 		opts = append(opts, grpc.PerRPCCredentials(staticCreds(spec.Creds2)))
+	}
+	if spec.FailCreds != "" {
+		opts = append(opts, grpc.PerRPCCredentials(failingCreds(spec.FailCreds)))
 	}
 	return opts
 }
